@@ -130,6 +130,8 @@ func outputTupleDir(v rel.Value, dir string, fs afero.Fs, dryRun bool) error {
 			if err := outputFile(content, subpath, fs, dryRun); err != nil {
 				return err
 			}
+		default:
+			return fmt.Errorf("dir output entry must be dict, string or byte array")
 		}
 	}
 	return nil
